@@ -94,6 +94,10 @@ pub struct ParScn {
     /// further call has to return, with the end marker again)
     #[serde(default)]
     pub pull_past_end: u8,
+    /// a second call (its own api / input / consumer; scheduler fields unused) that runs
+    /// concurrently in the same execution; judged on its own
+    #[serde(default)]
+    pub twin: Option<Box<ParScn>>,
 }
 
 #[derive(Clone, Debug, PartialEq)]
@@ -123,6 +127,10 @@ pub struct Hist {
     pub result: Option<String>,
     pub live_after: usize,
     pub spawned: usize,
+    /// largest number of scoped threads held unjoined by a crossbeam scope at any time
+    pub scope_pending_max: usize,
+    /// history of the concurrent second call (ParScn::twin)
+    pub twin: Option<Box<Hist>>,
     pub err_overtook_results: bool,
     pub consumer_left_early: bool,
     /// worker closures that have run to their end (set level)
@@ -512,6 +520,32 @@ fn body(scn: &ParScn, hist: &SharedHist) {
     TAGS.with(|t| t.set(0));
     rt::reset_counters();
     DEFAULT_HIST.with(|h| *h.borrow_mut() = Some(hist.clone()));
+    // a second, independent call running at the same time in the same process (own reader, own
+    // closures, own history): whatever one call does must not leak into the other
+    let twin = scn.twin.as_ref().map(|t| {
+        let t: ParScn = (**t).clone();
+        let h2: SharedHist = Arc::new(Mutex::new(Hist::default()));
+        let h3 = h2.clone();
+        let jh = rt::spawn(move || {
+            let r = call(&t, &h3);
+            let mut h = h3.lock().unwrap();
+            h.returned = true;
+            h.result = Some(r);
+        });
+        (jh, h2)
+    });
+    let result = call(scn, hist);
+    if let Some((jh, h2)) = twin {
+        let _ = jh.join();
+        let t = h2.lock().unwrap().clone();
+        hist.lock().unwrap().twin = Some(Box::new(t));
+    }
+    finish(hist, result);
+}
+
+/// one call of a parallel function as the scenario describes it; returns the Debug rendering of
+/// what the function returned
+fn call(scn: &ParScn, hist: &SharedHist) -> String {
     let q = scn.queue_len.max(1);
     let nt = scn.n_threads.max(1);
     let data = Arc::new(scn.input.clone().into_bytes());
@@ -916,11 +950,16 @@ fn body(scn: &ParScn, hist: &SharedHist) {
             "()".into()
         }
     };
+    result
+}
+
+fn finish(hist: &SharedHist, result: String) {
     {
         let mut h = hist.lock().unwrap();
         h.returned = true;
         h.result = Some(result);
         h.spawned = rt::spawned();
+        h.scope_pending_max = rt::scope_pending_max();
     }
     // every thread the call created must finish on its own: give the others the processor until
     // nobody is left; if only this task stays runnable while threads are alive they are stuck
@@ -1149,6 +1188,7 @@ pub fn gen_scn(id: &str, rng: &Rng, thorough: bool) -> ParScn {
         schedule: None,
         reader_waits_for: 0,
         pull_past_end: 0,
+        twin: None,
     };
     let mut n_recs = 0;
     if !generic {
@@ -1203,9 +1243,10 @@ pub fn gen_scn(id: &str, rng: &Rng, thorough: bool) -> ParScn {
         scn.consumer_stall = 0;
         scn.consumer = if rng.chance(2, 3) { Consumer::Drain } else { Consumer::StopAfter(rng.small(scn.n_sets)) };
     }
-    if matches!(id, "C08" | "C15") && scn.api == Api::GenericInit && rng.chance(1, 6) {
-        scn.reader_waits_for = rng.range(1, 2) as u8;
-    }
+    // (`reader_waits_for` is not generated any more: user closures that wait for each other are
+    // outside what C08 quantifies over, and a legal reordering of the closure calls - e.g. waiting
+    // for the outcome of reader_init before data sets are created - would raise an alarm. The
+    // field stays for hand-written scenarios; see DESIGN 17, "after round 5".)
     if matches!(id, "C08" | "C15" | "C07") && set_level && scn.consumer == Consumer::Drain && rng.chance(1, 4) {
         scn.pull_past_end = rng.range(1, 3) as u8;
     }
@@ -1240,6 +1281,35 @@ pub fn gen_scn(id: &str, rng: &Rng, thorough: bool) -> ParScn {
         scn.n_threads = rng.range(1, 2) as u32;
         scn.worker_stall = 0;
         scn.consumer_stall = 0;
+    }
+    if id == "C07" && rng.chance(1, 60) {
+        // two calls of the same per-record function at the same time, one draining, one stopping
+        // early; batches of more than a thousand records (periodic checks inside a worker loop)
+        let api = [Api::Fasta, Api::Fastq, Api::FastaInit, Api::FastqInit][rng.below(4) as usize].clone();
+        let fa = matches!(api, Api::Fasta | Api::FastaInit);
+        let mk = |rng: &Rng, consumer: Consumer| {
+            let mut t = scn.clone();
+            t.api = api.clone();
+            t.input = gen_input(rng, fa, rng.range(1500, 3200), None);
+            t.cap = *rng.pick(&[16384usize, 32768, 40000]);
+            t.script = if rng.chance(1, 2) { vec![] } else { vec![rng.range(1000, 9000) as u32] };
+            t.queue_len = rng.range(1, 2);
+            t.n_threads = rng.range(1, 3) as u32;
+            t.worker_stall = if rng.chance(1, 2) { 1 } else { 0 };
+            t.consumer_stall = 0;
+            t.err_at = None;
+            t.io_fault_at = None;
+            t.consumer = consumer;
+            t.pull_past_end = 0;
+            t.twin = None;
+            t
+        };
+        let early = Consumer::StopAfter(rng.range(1, 1200));
+        let (a, b) = if rng.chance(1, 2) { (Consumer::Drain, early) } else { (early, Consumer::Drain) };
+        let mut main = mk(rng, a);
+        let second = mk(rng, b);
+        main.twin = Some(Box::new(second));
+        return main;
     }
     // C07 also holds for the sets a failing reader produced before its error
     if id == "C07" && generic && rng.chance(1, 3) {
